@@ -20,6 +20,14 @@ Definition dispatch (code : Z) (arg : sx) : option sx :=
                       end
                   | _ => bad
                   end)
+  | 1504 => Some (match arg with
+                  | SL [caps; out] =>
+                      match sx_lcaps caps, sx_opt sx_str out with
+                      | Some caps, Some out => of_bool (ok_c15_loose caps out)
+                      | _, _ => bad
+                      end
+                  | _ => bad
+                  end)
   | 1502 => Some (match sx_lcaps arg with Some caps => of_opt SS (length_check_prefix caps) | None => bad end)
   | 1503 => Some (match sx_lcaps arg with Some caps => of_bool (must_raise (line_lengths caps)) | None => bad end)
   | _ => None
